@@ -93,7 +93,7 @@ func run(tapeJSON json.RawMessage, res *core.Result) {
 	kpPhase := tp.Phase == "kpasswd"
 	simsync.Passive = true
 	gk.Seed(tp.RunSeed)
-	kdc := refkdc.New("SIM.TEST", tp.RunSeed, refkdc.Policy{TicketAuthDataPad: tp.BigTkt})
+	kdc := refkdc.New("SIM.TEST", tp.RunSeed, refkdc.Policy{TicketAuthDataPad: tp.BigTkt, ErrorSName: tp.ErrSName})
 	if tp.BigTkt > 0 {
 		res.Probes["large-reply"]++
 	}
